@@ -36,13 +36,39 @@ pub async fn wt_read_to_end(r: &mut RecvStream, rbuf: usize) -> (Vec<u8>, String
     let mut buf = vec![0u8; rbuf.max(1)];
     let mut out = Vec::new();
     if rbuf == 13 {
-        // this buffer size goes through the stream's `tokio::io::AsyncRead` implementation
+        // this buffer size goes through the stream's `tokio::io::AsyncRead` implementation, the way
+        // `read_exact` / `read_buf` use it: one `ReadBuf` is polled until it is full, so most polls
+        // see a buffer that already holds bytes
         loop {
-            match bounded(tokio::io::AsyncReadExt::read(r, &mut buf)).await {
-                None => return (out, "timeout".into()),
-                Some(Ok(0)) => return (out, "eos".into()),
-                Some(Ok(k)) => out.extend_from_slice(&buf[..k]),
-                Some(Err(e)) => return (out, format!("io:{:?}", e.kind())),
+            let mut arr = [0u8; 13];
+            let mut rb = tokio::io::ReadBuf::new(&mut arr);
+            let mut eof = false;
+            while rb.remaining() > 0 {
+                let before = rb.filled().len();
+                let polled = bounded(std::future::poll_fn(|cx| {
+                    tokio::io::AsyncRead::poll_read(std::pin::Pin::new(&mut *r), cx, &mut rb)
+                }))
+                .await;
+                match polled {
+                    None => {
+                        out.extend_from_slice(rb.filled());
+                        return (out, "timeout".into());
+                    }
+                    Some(Err(e)) => {
+                        out.extend_from_slice(rb.filled());
+                        return (out, format!("io:{:?}", e.kind()));
+                    }
+                    Some(Ok(())) => {
+                        if rb.filled().len() == before {
+                            eof = true;
+                            break;
+                        }
+                    }
+                }
+            }
+            out.extend_from_slice(rb.filled());
+            if eof {
+                return (out, "eos".into());
             }
         }
     }
